@@ -12,18 +12,27 @@ vars == <<S, l, devs>>
 Rec == ndJsonDeserialize(IOEnv.TRACE)
 N == Len(Rec)
 
+(* databases a request of connection c can observe: its own and those of its watched keys *)
+RECURSIVE PurgeSeq(_, _, _)
+PurgeSeq(Ss, ds, tm) ==
+  IF ds = <<>> THEN Ss ELSE PurgeSeq(UNION {PurgeDb(X, Head(ds), tm) : X \in Ss}, Tail(ds), tm)
+PurgeFor(X, c, tm) ==
+  LET cn == X.conns[c]
+      ds == {cn.db} \cup {w[1] : w \in DOMAIN cn.watch}
+  IN PurgeSeq({X}, SetToSeq(ds), tm)
+
 TraceInit == S = InitS /\ l = 1 /\ devs = {} /\ TLCSet(1, 0) /\ TLCSet(2, <<"none">>) /\ TLCSet(3, InitS)
 
 Ev == Rec[l]
 
 EvOpen ==
   /\ Ev.k = "open"
-  /\ S' = [S EXCEPT !.conns = (Ev.c :> NewConn) @@ S.conns]
+  /\ S' = [S EXCEPT !.conns = (Ev.c :> NewConn(S)) @@ S.conns]
   /\ UNCHANGED devs
 
 EvClose ==
   /\ Ev.k = "close"
-  /\ S' = [S EXCEPT !.conns = [x \in (DOMAIN S.conns) \ {Ev.c} |-> S.conns[x]]]
+  /\ S' = DropConn(S, Ev.c)
   /\ UNCHANGED devs
 
 EvReset ==  \* a fresh server instance
@@ -31,28 +40,39 @@ EvReset ==  \* a fresh server instance
   /\ S' = InitS
   /\ UNCHANGED devs
 
+(* what the client received is what the server computed for that request (C05) *)
+ClientGot(r, sr) == r = sr
+
 EvCmd ==
   /\ Ev.k = "cmd"
   /\ Ev.c \in DOMAIN S.conns
   /\ LET tm == [t0 |-> Ev.t0, t1 |-> Ev.t1]
-         d == S.conns[Ev.c].db
-     IN \E S1 \in PurgeDb(S, d, tm) :
+     IN \E S1 \in PurgeFor(S, Ev.c, tm) :
           \E o \in Step(S1, Ev.c, Ev.argv, tm, Ev.r) :
             /\ Match(o.r, Ev.r)
+            /\ ("sr" \in DOMAIN Ev => ClientGot(Ev.r, Ev.sr))
+            /\ ("sargv" \notin DOMAIN Ev)      \* the server executed exactly the request that was sent
             /\ S' = o.S
             /\ devs' = devs \cup o.dv
+
+(* a request that got a reply although the server has no record of executing it: an `unlogged` event is
+   only acceptable when the client never got an answer (the connection was closed first) *)
+EvUnlogged == Ev.k = "unlogged" /\ Ev.r.t \in {"closed", "none"} /\ UNCHANGED <<S, devs>>
+
+(* result of a structure checker hook (skip list, pending-entry indexes, pub/sub maps): must be ok *)
+EvChk == Ev.k = "chk" /\ Ev.ok = 1 /\ UNCHANGED <<S, devs>>
 
 EvNote == Ev.k = "note" /\ UNCHANGED <<S, devs>>
 
 EvDropped ==  \* the client saw the server close the connection
   /\ Ev.k = "dropped"
-  /\ S' = [S EXCEPT !.conns = [x \in (DOMAIN S.conns) \ {Ev.c} |-> S.conns[x]]]
+  /\ S' = DropConn(S, Ev.c)
   /\ UNCHANGED devs
 
 TraceNext ==
   /\ l <= N
   /\ l' = l + 1
-  /\ (EvOpen \/ EvClose \/ EvReset \/ EvCmd \/ EvNote \/ EvDropped)
+  /\ (EvOpen \/ EvClose \/ EvReset \/ EvCmd \/ EvNote \/ EvDropped \/ EvUnlogged \/ EvChk)
   /\ IF l > TLCGet(1) THEN TLCSet(1, l) /\ TLCSet(3, S') ELSE TRUE   \* deepest matched event (last conjunct!)
 
 TraceSpec == TraceInit /\ [][TraceNext]_vars
@@ -72,7 +92,7 @@ TraceAccepted ==
        /\ LET e == Rec[deepest + 1] S0 == TLCGet(3) IN
             IF e.k = "cmd" /\ e.c \in DOMAIN S0.conns
             THEN LET tm == [t0 |-> e.t0, t1 |-> e.t1] d == S0.conns[e.c].db IN
-                 /\ PrintT(<<"EXPECTED-ONE-OF", {o.r : o \in UNION {Step(S1, e.c, e.argv, tm, e.r) : S1 \in PurgeDb(S0, d, tm)}}>>)
+                 /\ PrintT(<<"EXPECTED-ONE-OF", {o.r : o \in UNION {Step(S1, e.c, e.argv, tm, e.r) : S1 \in PurgeFor(S0, e.c, tm)}}>>)
                  /\ PrintT(<<"CONN-STATE", S0.conns[e.c]>>)
                  /\ PrintT(<<"DB-BEFORE", S0.dbs[d]>>)
             ELSE PrintT(<<"STATE-BEFORE", S0.conns>>)
